@@ -177,20 +177,18 @@ def r3(ctx, R):
     R.inst("clear_subs_rootitems: the root ItemSpace of *every* dynamic sub is discarded")
     lps = [n for n in walk_local(cs.node) if isinstance(n, ast.For) and "_dynamic_subs" in norm(n.iter)]
     clr = q.calls(cs, name="clear_itemspace_at")
-    if not lps or not clr or norm(clr[0].func.value) != "root.parent" or [norm(a) for a in clr[0].args] not in (
-            ["root.argvalues_if"],) and not (clr[0].args and isinstance(clr[0].args[0], ast.Name)
-                                              and [norm(v) for v in assigned_value(cs, clr[0].args[0].id)] == ["root.argvalues_if"]):
+    v = norm(lps[0].target) if lps else "?"
+    if not lps or not clr or q.anorm(cs, clr[0].func.value) != "%s.rootspace.parent" % v or \
+            [q.anorm(cs, a) for a in clr[0].args] != ["%s.rootspace.argvalues_if" % v]:
         R.bad(cs, cs.node, "instances built from this space are not discarded through their own parent and arguments",
               stmt="root.parent.clear_itemspace_at(root.argvalues_if)")
     else:
         for t, l in q.guards_of(cs, clr[0]):
             # the only admissible skip is one keyed on the identity of the root space itself
-            if not (t.startswith("root in ") or t.startswith("root not in ") or t.startswith("id(root)")):
+            rt = "%s.rootspace" % v
+            if not (t.startswith(("root in ", "root not in ", "id(root)", rt + " in ", rt + " not in ", "id(%s)" % rt))):
                 R.bad(cs, clr[0], "some instance roots are skipped (guard `%s`): an ItemSpace built from the deleted/edited "
                                   "base survives" % t)
-        rv = assigned_value(cs, "root")
-        if not rv or norm(rv[0]) != "dynsub.rootspace":
-            R.bad(cs, cs.node, "root of a dynamic sub is not its rootspace", stmt="root =")
     do = ctx.func("DynamicSpaceImpl.on_delete")
     R.inst("DynamicSpaceImpl.on_delete: child spaces deleted and removed")
     lp = [n for n in walk_local(do.node) if isinstance(n, ast.For) and "named_spaces.values()" in norm(n.iter)]
